@@ -380,7 +380,7 @@ def scale_limit(prog):
 
 def worker(t):
     prog = H.get_program(features=FEATURES)
-    S.BITS_MODE[:] = ['uf', 128]
+    S.BITS_MODE[:] = ['ladder', 192]        # exact bit-length facts (the pinned code of this property never asks for bits() of a symbolic integer; rewrites might)
     k = t['kind']
     if k == 'string':
         run = run_string_roundtrip(t['L'], t['slo'], t['shi'])
@@ -433,6 +433,13 @@ def confirm(v):
         ref = c05.py_ref(s)
         exp = 'ERR' if ref is None else H.dec_str(*ref)
         return not out.startswith(exp), '%r -> %s (reference %s)' % (s, out, exp)
+    if k == 'probe':
+        from . import c05
+        s = mdl['text']
+        ref = c05.py_ref(s)
+        line = 'serde\t%s\t%s' % (t['op'], s if t['op'] == 'json_de' else s.encode().hex())
+        out = H.replay_lines([line], cfg_env={'VERIF_REPLAY_FEATURES': 'serde'})[0]
+        return out != H.dec_str(*ref), out
     if k == 'visit_float':
         import struct
         from fractions import Fraction
@@ -492,6 +499,7 @@ def main(tier):
     results = H.run_parallel(tasks, worker, progress=50)
     rep.add(results)
     rep.validated, rep.validation_mismatches = validate(prog, rng, 60 if tier == 'quick' else 600)
+    rep.extra['native_json_probes'] = native_probe(rng, 150 if tier == 'quick' else 2000, rep)
     findings = H.load_known_findings(PROP)
     for r in results:
         for v in r['violations']:
@@ -530,6 +538,38 @@ def validate(prog, rng, n):
         if mine != nat.split('\x1f')[0]:
             mism.append({'case': [x, sc], 'mirsym': mine, 'native': nat})
     return len(cases), mism
+
+
+def native_probe(rng, n, rep):
+    """end-to-end through the REAL serde / serde_json stack (the environment the symbolic part only models by contracts):
+    every adapter must read JSON numbers digit for digit and round-trip what it wrote"""
+    from . import c05
+    nums = ['0.1', '12.34', '-2.01', '1e-7', '0.0008741329382918', '50', '0.5', '123.400', '-0', '0.000', '1E+2', '9007199254740993', '18446744073709551616',
+            '0.30000000000000004', '3.141592653589793238462643383279', '1e400', '-1e-400', '123456789012345678901234567890.123456789', '1.7976931348623157e308', '4.9e-324']
+    for i in range(n):
+        s = str(rng.randint(0, 10 ** rng.randint(1, 25)))                 # JSON: no leading zeros in the integer part
+        if rng.random() < 0.7:
+            s += '.' + ''.join(rng.choice('0123456789') for _ in range(rng.randint(1, 20)))
+        if rng.random() < 0.3:
+            s += rng.choice(['e', 'E']) + rng.choice(['', '+', '-']) + str(rng.randint(0, 30))
+        nums.append(('-' if rng.random() < 0.3 else '') + s)
+    lines, exp, what = [], [], []
+    for s in nums:
+        ref = c05.py_ref(s)
+        if ref is None:
+            continue
+        for op in ('json_de', 'json_option_de'):
+            lines.append('serde\t%s\t%s' % (op, s if op == 'json_de' else s.encode().hex()))
+            exp.append(H.dec_str(*ref))
+            what.append((op, s))
+    outs = H.replay_lines(lines, cfg_env={'VERIF_REPLAY_FEATURES': 'serde'})
+    lim = None
+    for (op, s), o, e in zip(what, outs, exp):
+        if o.startswith('ERR') and abs(int(e.rsplit(':', 1)[1])) > 1000:
+            continue                     # beyond the configured scale limit of the json adapters: refusing is the contract
+        if o != e:
+            H.probe_violation(rep, PROP, 'native %s of the JSON number %s gives %s, digit for digit it is %s' % (op, s, o, e), {'kind': 'probe', 'op': op}, {'text': s}, o)
+    return len(lines)
 
 
 def replay(path):
